@@ -354,6 +354,32 @@ def r2_write_accounting(ck, P):
         ck.ok(R, 'rewind by exactly -width between the passes')
     else:
         ck.violation(R, g.name, 'rewind between passes', 'the normalising pass does not start `width` entries before the end of the sampling pass: it normalises the wrong taps or runs past the phase', '%s:%d' % (g.unit.name, g.line))
+    # stores outside the two passes (the fallback for a weightless phase, the final correction): they address the current phase, i.e.
+    # they go through the rewound pointer, or through the pointer the second pass leaves behind minus width
+    inner_blocks = set()
+    for l in inner:
+        inner_blocks |= set(l['blocks'])
+    rewind = x if ok else None
+    second_ptr = ptr[0]['v'] if ptr else None
+    first = min(inner, key=lambda l: l['header'])
+    first_ptr = [ph['v'] for ph in first['phis'] if ph['ty'] == 'i32*']
+    for st in g.insts():
+        if st.op != 'store' or st.bb.id in inner_blocks or st.bb.id not in set(outer[0]['blocks']):
+            continue
+        y = g.v(st.a[1])
+        if y is None or y.op != 'getelementptr' or y.ty != 'i32*':
+            continue
+        b = g.v(y.a[0])
+        idx = [q for q in y.d['path'] if q[0] in ('p', 'x')]
+        la = linear(g, idx[0][1]) if idx else None
+        where = 'store outside the passes at %s' % st.loc()
+        if rewind is not None and b is not None and b.i == rewind.i:
+            ck.ok(R, where, 'through the rewound pointer')
+        elif b is not None and second_ptr is not None and b.i == second_ptr and width_arg is not None and la == {('arg', width_arg): -1}:
+            ck.ok(R, where, 'end of the normalising pass minus width')
+        elif b is not None and (b.i in first_ptr or (second_ptr is not None and b.i == second_ptr)):
+            ck.violation(R, g.name, 'store outside the passes at %s' % st.loc(), 'between / after the two passes the writer stores through the pointer a pass has left behind (one phase further on) without rewinding it by width: the entry lands in the next phase, and for the last phase of the table behind the end of the block' , st.loc())
+
     # outer loop: counter 0.. n_phases
     o = outer[0]
     cnt = [ph for ph in o['phis'] if ph['ty'] == 'i32' and ph['step'] == 1 and ph['start'] == '0']
@@ -412,8 +438,6 @@ def r_axis_consistency(ck, P, rid):
                 if k is not None and k in AX:
                     hdr[x.i] = k
         if not any(k in (2, 3) for k in hdr.values()):
-            continue
-        if f.name == 'pixman_image_set_filter':
             continue
         memo = {}
 
@@ -479,12 +503,32 @@ def r_axis_consistency(ck, P, rid):
                     ck.ok(R, '%s: %s' % (f.name, what))
                 else:
                     ck.violation(R, f.name, what, '%s offsets the %s sample coordinate by a value derived from the %s-axis header field(s) %s (%s): the kernel window of one axis is centred with the size of the other, so a non-square kernel is applied %s rows / columns off and the readers disagree' % (f.name, list(ca)[0], '/'.join(sorted(hax)), ','.join(NAME[k] for k in sorted(hb)), x.op, 'half the size difference in'), x.loc())
+        is_setter = any(y.op == 'store' and f.last_field(f.path(y.a[1])) == 'image_common.filter_params' for y in f.insts())
+        SEPK_ = P.enum_const('PIXMAN_FILTER_SEPARABLE_CONVOLUTION')
+        def separable_path(bid):
+            """in the setter the header layout depends on the filter kind: only blocks reached under filter == SEPARABLE count"""
+            for t, s_ in f.guard_edges(bid):
+                if not t.a:
+                    continue
+                if t.op == 'switch':
+                    if f.strip_casts(t.a[0])[0] == 'a' and any(int(cv) == SEPK_ and bb == s_ for cv, bb in t.d.get('cases', [])) and t.d.get('default') != s_:
+                        return True
+                    continue
+                c, p, ops = f.cond(t.a[0])
+                if c is not None and c.op == 'icmp' and p in ('eq', 'ne') and any(f.strip_casts(o)[0] == 'a' for o in ops) and any(o[0] == 'c' and int(o[1]) == SEPK_ for o in ops):
+                    if (p == 'eq') == (t.d['succ'][0] == s_):
+                        return True
+            return False
         for x in f.insts():
-            if x.op not in ('mul', 'shl', 'lshr', 'ashr'):
+            if x.op not in ('mul', 'shl', 'lshr', 'ashr', 'icmp'):
+                continue
+            if is_setter and not separable_path(x.bb.id):
                 continue
             h1, h2 = H(x.a[0]), H(x.a[1])
             if not h1 or not h2:
                 continue
+            if x.op == 'icmp' and (len({AX[k] for k in h1}) != 1 or len({AX[k] for k in h2}) != 1):
+                continue            # a total over both axes (the length test) is not an axis comparison
             n += 1
             axes = {AX[k] for k in h1 | h2}
             what = '%s of [%s] and [%s]' % (x.op, ','.join(NAME[k] for k in sorted(h1)), ','.join(NAME[k] for k in sorted(h2)))
